@@ -27,11 +27,11 @@ ASSUMPTIONS = ["'leaves no position' is the post-condition at the exit of the cl
 
 def plan(tier):
     q = tier == "quick"
-    return [dict(unit="risk", n=400 if q else 12000, builds=["py"], case_timeout=60),
-            dict(unit="hedge", n=500 if q else 15000, builds=["py"], case_timeout=60),
-            dict(unit="risk_bt", n=120 if q else 3000, builds=["py", "so"], case_timeout=180),
-            dict(unit="close", n=300 if q else 8000, builds=["py", "so"], case_timeout=120),
-            dict(unit="roll", n=300 if q else 8000, builds=["py", "so"], case_timeout=120)]
+    return [dict(unit="risk", n=400 if q else 4800, builds=["py"], case_timeout=60),
+            dict(unit="hedge", n=500 if q else 6000, builds=["py"], case_timeout=60),
+            dict(unit="risk_bt", n=120 if q else 1200, builds=["py", "so"], case_timeout=180),
+            dict(unit="close", n=300 if q else 3200, builds=["py", "so"], case_timeout=120),
+            dict(unit="roll", n=300 if q else 3200, builds=["py", "so"], case_timeout=120)]
 
 
 def floors(tier):
